@@ -269,6 +269,21 @@ fn bprime_enumerate_threads_of_this_process() {
     let mut errs = ErrorList::<InitError>::default();
     d.enumerate_threads(&mut errs).expect("enumerate_threads");
     let listed: Vec<(Pid, Option<String>)> = d.threads.iter().map(|t| (t.tid, t.name.clone())).collect();
+    // second pass with every thread-name read failing (fail point): the threads are still all listed, without a
+    // name, and each failure is reported (C04 "appears exactly once", C11 "reading a thread name ... never makes the dump fail")
+    let (unnamed, name_errs) = {
+        let mut client = crate::FailSpotName::testing_client();
+        client.set_enabled(crate::FailSpotName::ThreadName, true);
+        let mut d2 = bare_dumper(vec![]);
+        d2.pid = std::process::id() as Pid;
+        let mut errs2 = ErrorList::<InitError>::default();
+        let r = d2.enumerate_threads(&mut errs2);
+        client.set_enabled(crate::FailSpotName::ThreadName, false);
+        r.expect("enumerate_threads with unreadable thread names");
+        let l: Vec<(Pid, Option<String>)> = d2.threads.iter().map(|t| (t.tid, t.name.clone())).collect();
+        std::mem::forget(d2);
+        (l, errs2.len())
+    };
     // the kernel's own list
     let mut kernel: Vec<Pid> = std::fs::read_dir("/proc/self/task").unwrap().map(|e| e.unwrap().file_name().to_str().unwrap().parse().unwrap()).collect();
     stop.wait();
@@ -278,6 +293,11 @@ fn bprime_enumerate_threads_of_this_process() {
     got.sort();
     assert_eq!(got, kernel, "every thread of the process exactly once");
     assert!(errs.is_empty());
+    let mut got2: Vec<Pid> = unnamed.iter().map(|t| t.0).collect();
+    got2.sort();
+    assert_eq!(got2, kernel, "a thread whose name cannot be read is still listed, exactly once");
+    assert!(unnamed.iter().all(|t| t.1.is_none()), "no name where none could be read");
+    assert_eq!(name_errs, kernel.len(), "one ReadThreadNameFailed soft error per thread");
     let mut n = 0;
     for (tid, name) in tids.lock().unwrap().iter() {
         let entry = listed.iter().find(|t| t.0 == *tid).expect("helper thread listed");
